@@ -1,4 +1,4 @@
-/* C07-corpus: known C07:char-constant-type
+/* C07-corpus: pass   (was known C07:char-constant-type, repaired in /repo)
    C11 6.4.4.4p10: an integer character constant has type int; c2mir gives it type char
    (sizeof 'a' == 1) */
 #include <stdio.h>
